@@ -190,10 +190,9 @@ class PG:
                 ty = self.body.local_ty(l)
                 if ty == "bool":
                     out.add(l)
-                elif ty in ("&str", "&'static str"):
-                    # selector strings such as `reason`: only if every definition is a constant
-                    if all(dd[2] == "assign" and "use" in dd[3] and "const" in dd[3]["use"] for dd in d):
-                        out.add(l)
+                elif all(dd[2] == "assign" and (("use" in dd[3] and "const" in dd[3]["use"]) or (dd[3].get("agg") == "adt" and not dd[3]["ops"])) for dd in d):
+                    # selector locals (`reason` strings, `expected` message kinds): every definition is a constant
+                    out.add(l)
         return out
 
     def _node(self, block, env):
@@ -345,6 +344,28 @@ class PG:
             st = seen[st]
         path.reverse()
         return path
+
+    def dominated_by_block(self, site_at, pred):
+        """True iff every path entry -> site passes through (the end of) a block b with pred(b).
+        A pred block equal to the site's block counts only if the site is its terminator... never:
+        the site must come strictly after the block."""
+        sb = site_at[0]
+        seen = set()
+        work = [0]
+        while work:
+            n = work.pop()
+            if n in seen:
+                continue
+            seen.add(n)
+            bi = self.nodes[n][0]
+            if bi == sb:
+                return False
+            if pred(bi):
+                continue
+            for m, _ in self.edges[n] or []:
+                if m not in seen:
+                    work.append(m)
+        return True
 
     def reach(self, assume=None, start_block=0):
         """Blocks reachable from entry over edges none of whose literals contradicts a literal in
